@@ -254,7 +254,21 @@ def features(b, step_index):
     return f
 
 
-def execute(d, behaviours, test='^TestVerifC15$', env=None, shards=1):
+class _Stop(Exception):
+    """the harness gave up in the middle of a run whose recorded part already shows a violation"""
+
+
+def settle(rep, stats):
+    """A test process that gives up half-way (a set-up step refused, a handler that never returns) after the real
+    code misbehaved is a consequence, not a verdict of its own: the part of the trace recorded until then is judged;
+    if it shows a violation the run ends there (exit 1), otherwise the run is inconclusive (exit 2)."""
+    if stats.get('harness_failed'):
+        if rep.violations:
+            raise _Stop()
+        raise core.Inconclusive(stats['harness_failed'])
+
+
+def execute(d, behaviours, test='^TestVerifC15$', env=None, shards=1, stats=None):
     """runs the behaviours on the real server; `shards` > 1: that many test processes (each its own one-node server)
     side by side, every behaviour is independent of the others (fresh names), the traces are concatenated"""
     import threading
@@ -286,9 +300,19 @@ def execute(d, behaviours, test='^TestVerifC15$', env=None, shards=1):
         th.join()
     lines, methods = [], None
     for rc, out, trace in results:
-        if rc != 0 or not trace or not os.path.exists(trace):
-            raise core.Inconclusive('harness failed rc=%s: %s' % (rc, (out or '')[-3000:]))
-        part = core.read_ndjson(trace)
+        msg = 'harness failed rc=%s: %s' % (rc, (out or '')[-3000:])
+        if not trace or not os.path.exists(trace) or (rc != 0 and stats is None):
+            raise core.Inconclusive(msg)
+        part = []
+        for ln in open(trace):
+            try:
+                part.append(json.loads(ln))
+            except ValueError:
+                break          # the line being written when the process ended
+        if not part or 'methods' not in part[0]:
+            raise core.Inconclusive(msg)
+        if rc != 0:
+            stats['harness_failed'] = msg
         methods = part[0]['methods']
         lines += part[1:]
     out_path = os.path.join(d, 'trace.ndjson')
@@ -363,7 +387,7 @@ def run(rep, tier, seed, replay):
     time.sleep(0.3)
     try:
         res = core.tlc_check('MC_Authz.tla', 'MC_Authz.cfg' if tier == 'quick' else 'MC_Authz_thorough.cfg', timeout=2400,
-                             coverage=(tier == 'thorough'), workers=max(2, core.NCPU - 2))
+                             coverage=(tier == 'thorough'), workers=max(2, core.NCPU - 2), heap='6g')
     finally:
         simth.join()
     if res.get('zero_cov'):
@@ -430,95 +454,104 @@ def run(rep, tier, seed, replay):
     # methods the model does not know are called generically by a client without any entry (added below after reflection)
     for n, b in enumerate(chosen):
         b['id'] = n + 1
-    with core.scratch('c15') as d:
-        trace, methods, lines = execute(d, chosen, shards=2 if tier == 'quick' else 3)
-        phases['execute'] = round(time.time() - t0, 1)
-        unknown = [m for m in methods if m not in MODEL_METHODS]
-        missing = [m for m in MODEL_METHODS if m not in methods]
-        judge(rep, trace, lines, chosen, stats)
-        if unknown:
-            base = chosen[0]
-            extra = []
-            for m in unknown:
-                call = {'m': m, 'c': 'alice', 's': 's1', 'resume': False, 'grp': False, 'epoch': 0, 'ro': False}
-                extra.append({'id': len(chosen) + len(extra) + 1, 'cfg': dict(base['cfg'], policy=[]),
-                              'steps': [{'a': 'Call', 'call': call}]})
-            trace2, _, lines2 = execute(d, extra)
-            judge(rep, trace2, lines2, extra, stats)
-            chosen += extra
-        # the same behaviours over a real gRPC/TLS connection: the client id comes from the certificate through the
-        # interceptors of server/authz.go and the enforcer is the one the server builds from its configuration
-        import copy
-        tls_ok = set(MODEL_METHODS) - {'PublishAsync'}
-        tls_b = [copy.deepcopy(b) for b in chosen
-                 if all(s['a'] != 'Call' or (s['call']['c'] == 'alice' and s['call']['m'] in tls_ok) for s in b['steps'])]
-        tls_b.sort(key=lambda b: not unauthorised(b['cfg']['policy'], b['steps'][0]['call']))
-        seen_m = {}
-        pick = []
-        for b in tls_b:          # spread over methods, unauthorised first
-            m = b['steps'][0]['call']['m']
-            if seen_m.get(m, 0) < (3 if tier == 'quick' else 12):
-                seen_m[m] = seen_m.get(m, 0) + 1
-                pick.append(b)
-        # how the caller authenticates (Authz!Creds): against the policy that grants EVERYTHING, a caller with a
-        # self-signed certificate claiming the client's name, or with no certificate, must be refused
-        first_by_m = {}
-        for b in tls_b:
-            first_by_m.setdefault(b['steps'][0]['call']['m'], b)
-
-        def cred_behaviours(creds):
-            out = []
-            for k, (m, b) in enumerate(sorted(first_by_m.items())):
-                v = visible_variant(b) or copy.deepcopy(b)
-                v['steps'] = [v['steps'][0]]
-                v['steps'][0]['call']['cred'] = creds[k % len(creds)]
-                v['cfg']['policy'] = list(ALL_ENTRIES)
-                out.append(v)
-            return out
-        pick += cred_behaviours(['forged', 'none'])
-        for n, b in enumerate(pick):
-            b['id'] = 100000 + n
-            b['cfg']['mode'] = 'tls'
-        if pick:
-            trace3, _, lines3 = execute(d, pick, test='^TestVerifC15TLS$')
-            judge(rep, trace3, lines3, pick, stats)
-        stats['tls'] = len(pick)
-        chosen += pick
-        # configuration route "authorisation enabled, policy / model path missing": the server builds no enforcer;
-        # every call (one per method, over TLS) must be refused
-        noenf = []
-        for route in ('nopolicy', 'nomodel'):
-            grp = []
-            seen_m = set()
-            for b in tls_b:
+    methods, unknown, missing = [], [], []
+    try:
+        with core.scratch('c15') as d:
+            trace, methods, lines = execute(d, chosen, shards=2 if tier == 'quick' else 3, stats=stats)
+            phases['execute'] = round(time.time() - t0, 1)
+            unknown = [m for m in methods if m not in MODEL_METHODS]
+            missing = [m for m in MODEL_METHODS if m not in methods]
+            judge(rep, trace, lines, chosen, stats)
+            settle(rep, stats)
+            if unknown:
+                base = chosen[0]
+                extra = []
+                for m in unknown:
+                    call = {'m': m, 'c': 'alice', 's': 's1', 'resume': False, 'grp': False, 'epoch': 0, 'ro': False}
+                    extra.append({'id': len(chosen) + len(extra) + 1, 'cfg': dict(base['cfg'], policy=[]),
+                                  'steps': [{'a': 'Call', 'call': call}]})
+                trace2, _, lines2 = execute(d, extra, stats=stats)
+                judge(rep, trace2, lines2, extra, stats)
+                settle(rep, stats)
+                chosen += extra
+            # the same behaviours over a real gRPC/TLS connection: the client id comes from the certificate through the
+            # interceptors of server/authz.go and the enforcer is the one the server builds from its configuration
+            import copy
+            tls_ok = set(MODEL_METHODS) - {'PublishAsync'}
+            tls_b = [copy.deepcopy(b) for b in chosen
+                     if all(s['a'] != 'Call' or (s['call']['c'] == 'alice' and s['call']['m'] in tls_ok) for s in b['steps'])]
+            tls_b.sort(key=lambda b: not unauthorised(b['cfg']['policy'], b['steps'][0]['call']))
+            seen_m = {}
+            pick = []
+            for b in tls_b:          # spread over methods, unauthorised first
                 m = b['steps'][0]['call']['m']
-                if m in seen_m:
-                    continue
-                seen_m.add(m)
-                nb = copy.deepcopy(b)
-                nb['id'] = 200000 + len(noenf) + len(grp)
-                nb['cfg']['policy'] = []
-                nb['cfg']['mode'] = 'tls-' + route
-                nb['steps'] = [nb['steps'][0]]
-                grp.append(nb)
-            if grp:
-                trace4, _, lines4 = execute(d, grp, test='^TestVerifC15TLS$', env={'VERIF_C15_ENFORCER': route})
-                judge(rep, trace4, lines4, grp, stats)
-            noenf += grp
-        stats['noenf'] = len(noenf)
-        chosen += noenf
-        # configuration route "authorisation on, client certificates not verified" (tls.client.auth.enabled off):
-        # nobody has a verified identity, so every call must be refused whatever certificate is shown
-        authoff = cred_behaviours(['forged', 'forged', 'verified', 'none'])
-        for n, b in enumerate(authoff):
-            b['id'] = 300000 + n
-            b['cfg']['mode'] = 'tls-authoff'
-            b['cfg']['clientAuth'] = False
-        if authoff:
-            trace5, _, lines5 = execute(d, authoff, test='^TestVerifC15TLS$', env={'VERIF_C15_CLIENTAUTH': 'off'})
-            judge(rep, trace5, lines5, authoff, stats)
-        stats['authoff'] = len(authoff)
-        chosen += authoff
+                if seen_m.get(m, 0) < (3 if tier == 'quick' else 12):
+                    seen_m[m] = seen_m.get(m, 0) + 1
+                    pick.append(b)
+            # how the caller authenticates (Authz!Creds): against the policy that grants EVERYTHING, a caller with a
+            # self-signed certificate claiming the client's name, or with no certificate, must be refused
+            first_by_m = {}
+            for b in tls_b:
+                first_by_m.setdefault(b['steps'][0]['call']['m'], b)
+
+            def cred_behaviours(creds):
+                out = []
+                for k, (m, b) in enumerate(sorted(first_by_m.items())):
+                    v = visible_variant(b) or copy.deepcopy(b)
+                    v['steps'] = [v['steps'][0]]
+                    v['steps'][0]['call']['cred'] = creds[k % len(creds)]
+                    v['cfg']['policy'] = list(ALL_ENTRIES)
+                    out.append(v)
+                return out
+            pick += cred_behaviours(['forged', 'none'])
+            for n, b in enumerate(pick):
+                b['id'] = 100000 + n
+                b['cfg']['mode'] = 'tls'
+            if pick:
+                trace3, _, lines3 = execute(d, pick, test='^TestVerifC15TLS$', stats=stats)
+                judge(rep, trace3, lines3, pick, stats)
+                settle(rep, stats)
+            stats['tls'] = len(pick)
+            chosen += pick
+            # configuration route "authorisation enabled, policy / model path missing": the server builds no enforcer;
+            # every call (one per method, over TLS) must be refused
+            noenf = []
+            for route in ('nopolicy', 'nomodel'):
+                grp = []
+                seen_m = set()
+                for b in tls_b:
+                    m = b['steps'][0]['call']['m']
+                    if m in seen_m:
+                        continue
+                    seen_m.add(m)
+                    nb = copy.deepcopy(b)
+                    nb['id'] = 200000 + len(noenf) + len(grp)
+                    nb['cfg']['policy'] = []
+                    nb['cfg']['mode'] = 'tls-' + route
+                    nb['steps'] = [nb['steps'][0]]
+                    grp.append(nb)
+                if grp:
+                    trace4, _, lines4 = execute(d, grp, test='^TestVerifC15TLS$', env={'VERIF_C15_ENFORCER': route}, stats=stats)
+                    judge(rep, trace4, lines4, grp, stats)
+                    settle(rep, stats)
+                noenf += grp
+            stats['noenf'] = len(noenf)
+            chosen += noenf
+            # configuration route "authorisation on, client certificates not verified" (tls.client.auth.enabled off):
+            # nobody has a verified identity, so every call must be refused whatever certificate is shown
+            authoff = cred_behaviours(['forged', 'forged', 'verified', 'none'])
+            for n, b in enumerate(authoff):
+                b['id'] = 300000 + n
+                b['cfg']['mode'] = 'tls-authoff'
+                b['cfg']['clientAuth'] = False
+            if authoff:
+                trace5, _, lines5 = execute(d, authoff, test='^TestVerifC15TLS$', env={'VERIF_C15_CLIENTAUTH': 'off'}, stats=stats)
+                judge(rep, trace5, lines5, authoff, stats)
+                settle(rep, stats)
+            stats['authoff'] = len(authoff)
+            chosen += authoff
+    except _Stop:
+        rep.cov['stopped_early'] = stats['harness_failed'][-400:]
     if stats.get('drifting'):
         core.write_json(os.path.join(core.BUILD, 'drift-C15.json'), {'replay': {'behaviours': stats['drifting'][:20]}})
     phases['judge'] = round(time.time() - t0, 1)
